@@ -351,6 +351,11 @@ def _finish(mod, tier, seed, plan, hosts, results, harness_fail, wall):
             canary[1] += r["canary"][1]
         if r.get("extra") is not None:
             extras.append(r["extra"])
+    if hasattr(mod, "cross_check"):
+        # checks whose oracle is agreement *between* workers (e.g. hosts): run once, on the merged results
+        for sig, msg, case, host in mod.cross_check(plan, extras, results):
+            v = viol.setdefault(sig, {"n": 0, "msg": msg, "case": case, "detail": {}, "host": host})
+            v["n"] += 1
     unlisted = {s: v for s, v in viol.items() if s not in known}
     matched = {s: v for s, v in viol.items() if s in known}
     lines = []
